@@ -24,7 +24,7 @@ From Coq Require Import ZArith QArith List Bool Lia Sorting.Permutation.
 Import ListNotations.
 From Osmo Require Import Base.DecModel CL.TickMath CL.CLMath CL.CLPool CL.CLSwap CL.CLStep CL.Ideal
   CLR.Accum CLR.Rewards CLR.RSwap CLR.RStep C07.Base C07.LP C08.Proj C08.Dom
-  C08.PaidHist C08.Inc C08.IncHist C01.Funds C01.Exact C01.Solvent C01.SwapPath C01.Potential C01.SwapSolvent C01.History C01.Full C01.SpreadAcc.
+  C08.PaidOps C08.PaidHist C08.Inc C08.IncHist C01.Funds C01.Exact C01.Solvent C01.SwapPath C01.Potential C01.SwapSolvent C01.History C01.Full C01.SpreadAcc.
 Open Scope Z_scope.
 
 (* ==== the full statement (DESIGN.md section 5, C01) ==== *)
@@ -141,6 +141,16 @@ Theorem C01_spread_covered_partial : forall sp spf ssc isc users t ops c, 0 < sp
   fst c <= fst (b_spread (s_bank (r_base rs))) /\ snd c <= snd (b_spread (s_bank (r_base rs))).
 Proof. exact spread_covered_reachable. Qed.
 Print Assumptions C01_spread_covered_partial.
+
+(* ... hence every single collect of spread rewards is affordable, in any order (PARTIAL: same hypotheses) *)
+Theorem C01_each_spread_claim_affordable_partial : forall sp spf ssc isc users t ops d q, 0 < sp -> 0 <= spf <= 500000000000000000 -> 0 < ssc ->
+  let rs0 := rinit sp spf ssc isc users t in
+  let rs := rrun rs0 ops in
+  (forall p, In p (s_pos (r_base rs)) -> claimable_spread rs (ps_id p) <> None) ->
+  hist_pcost rs0 ops + Z.of_nat (length (s_pos (r_base rs))) < 2 * ssc ->
+  In q (s_pos (r_base rs)) -> claim_of d rs q <= spread_bal d rs.
+Proof. exact each_spread_claim_affordable. Qed.
+Print Assumptions C01_each_spread_claim_affordable_partial.
 
 (* incentive account conjunct of Solv, PARTIAL: integer-robust form (claims only), explicit rounding budget, successful queries *)
 Theorem C01_inc_covered_partial : forall sp spf ssc isc users t ops c, 0 < sp -> 0 <= spf <= 500000000000000000 -> 0 < isc ->
